@@ -1,4 +1,11 @@
 //! Verification model of slotmap 1.0.7 (subset used by pie_graph): generational arena, heap-free.
+//!
+//! Observable behaviour modelled: keys are (index, version); a fresh slot gets version 1; `remove` bumps the version so
+//! stale keys never match again; removed slots are reused LIFO; iteration is in slot order.
+//!
+//! CBMC note: every access through a (possibly symbolic) key index goes through `sel`/`sel_mut`, a loop over the
+//! *concrete* slot positions, so that the resulting reference is a choice among concrete sub-objects instead of a
+//! pointer with a symbolic offset (which CBMC lowers to byte-level extract/update over the whole object).
 use std::ops::{Index, IndexMut};
 pub const CAP: usize = 6;
 
@@ -29,48 +36,73 @@ impl<K: Key, V> SlotMap<K, V> {
   pub fn new() -> Self { Self::default() }
   pub fn len(&self) -> usize { self.num }
   pub fn is_empty(&self) -> bool { self.num == 0 }
+  #[inline]
+  fn sel(&self, i: usize) -> Option<&Slot<V>> {
+    let mut k = 0;
+    while k < CAP { if k == i { return Some(&self.slots[k]); } k += 1; }
+    None
+  }
+  #[inline]
+  fn sel_mut(&mut self, i: usize) -> Option<&mut Slot<V>> {
+    let mut k = 0;
+    while k < CAP { if k == i { return Some(&mut self.slots[k]); } k += 1; }
+    None
+  }
   pub fn insert(&mut self, value: V) -> K {
     self.num += 1;
     if self.nfree > 0 {
       self.nfree -= 1;
       let idx = self.free[self.nfree];
-      let slot = &mut self.slots[idx as usize];
+      let slot = self.sel_mut(idx as usize).unwrap();
       slot.version = slot.version.wrapping_add(1);
       slot.value = Some(value);
       K::from_parts(idx, slot.version)
     } else {
       assert!(self.used < CAP, "KMODEL-CAPACITY: SlotMap");
       let idx = self.used; self.used += 1;
-      self.slots[idx] = Slot { version: 1, value: Some(value) };
+      let slot = self.sel_mut(idx).unwrap();
+      slot.version = 1;
+      slot.value = Some(value);
       K::from_parts(idx as u32, 1)
     }
   }
   #[inline]
-  fn live(&self, key: K) -> Option<usize> {
+  fn live(&self, key: K) -> Option<&Slot<V>> {
     let (idx, version) = key.parts();
     let i = idx as usize;
-    if i < self.used && self.slots[i].version == version && self.slots[i].value.is_some() { Some(i) } else { None }
+    if i >= self.used { return None; }
+    match self.sel(i) { Some(s) if s.version == version && s.value.is_some() => Some(s), _ => None }
+  }
+  #[inline]
+  fn live_mut(&mut self, key: K) -> Option<&mut Slot<V>> {
+    let (idx, version) = key.parts();
+    let i = idx as usize;
+    if i >= self.used { return None; }
+    match self.sel_mut(i) { Some(s) if s.version == version && s.value.is_some() => Some(s), _ => None }
   }
   pub fn contains_key(&self, key: K) -> bool { self.live(key).is_some() }
-  pub fn get(&self, key: K) -> Option<&V> { match self.live(key) { Some(i) => self.slots[i].value.as_ref(), None => None } }
-  pub fn get_mut(&mut self, key: K) -> Option<&mut V> { match self.live(key) { Some(i) => self.slots[i].value.as_mut(), None => None } }
+  pub fn get(&self, key: K) -> Option<&V> { match self.live(key) { Some(s) => s.value.as_ref(), None => None } }
+  pub fn get_mut(&mut self, key: K) -> Option<&mut V> { match self.live_mut(key) { Some(s) => s.value.as_mut(), None => None } }
   pub fn remove(&mut self, key: K) -> Option<V> {
-    let i = self.live(key)?;
-    let slot = &mut self.slots[i];
-    let v = slot.value.take();
-    slot.version = slot.version.wrapping_add(1);
-    self.free[self.nfree] = i as u32; self.nfree += 1;
+    let (idx, _) = key.parts();
+    let v = {
+      let slot = self.live_mut(key)?;
+      let v = slot.value.take();
+      slot.version = slot.version.wrapping_add(1);
+      v
+    };
+    self.free[self.nfree] = idx; self.nfree += 1;
     self.num -= 1;
     v
   }
   pub fn iter(&self) -> Iter<'_, K, V> { Iter { m: self, i: 0 } }
-  pub fn values_mut(&mut self) -> ValuesMut<'_, V> { let used = self.used; ValuesMut { it: self.slots[..used].iter_mut() } }
+  pub fn values_mut(&mut self) -> ValuesMut<'_, V> { ValuesMut { it: self.slots.iter_mut() } }
 }
 pub struct Iter<'a, K: Key, V> { m: &'a SlotMap<K, V>, i: usize }
 impl<'a, K: Key, V> Iterator for Iter<'a, K, V> {
   type Item = (K, &'a V);
   fn next(&mut self) -> Option<Self::Item> {
-    while self.i < self.m.used {
+    while self.i < CAP {
       let i = self.i; self.i += 1;
       let s = &self.m.slots[i];
       if let Some(v) = s.value.as_ref() { return Some((K::from_parts(i as u32, s.version), v)); }
